@@ -59,6 +59,28 @@ class Func:
         self.node, self.env, self.module, self.qualname = node, env, module, qualname
     def __repr__(self): return f"<func {self.qualname}>"
 
+class SymList:
+    """a python list of ints whose length is symbolic: elements arr[0..n-1] of a z3 Array(Int, Int), n a z3 Int
+    (arrays, not sequences: quantified invariants over arrays are what the solver handles reliably)"""
+    def __init__(self, arr, n): self.arr, self.n = arr, n
+    @staticmethod
+    def of(items):
+        a = z3.K(z3.IntSort(), z3.IntVal(0))
+        for k, x in enumerate(items): a = z3.Store(a, k, z3.IntVal(x) if isinstance(x, int) else x)
+        return SymList(a, z3.IntVal(len(items)))
+
+class SymSlice:
+    """lst[start:stop] of a SymList, kept lazy so that tuple unpacking can check the length"""
+    def __init__(self, arr, start, stop): self.arr, self.start, self.stop = arr, start, stop
+
+class SymRange:
+    def __init__(self, start, stop, step): self.start, self.stop, self.step = start, stop, step
+
+class LoopSpec:
+    """sidecar loop contract, keyed by (function qualname, loop ordinal): inv(eng, env) -> [(label, z3 Bool)],
+    havoc(eng, env) assigns fresh values to everything the body may modify, variant(eng, env) -> z3 Int (while loops)"""
+    def __init__(self, inv, havoc, variant=None): self.inv, self.havoc, self.variant = inv, havoc, variant
+
 class ExcName:
     """stands for a builtin exception class object"""
     def __init__(self, name): self.name = name
@@ -118,7 +140,8 @@ def _mk(v, tag):
 def is_sym(v): return isinstance(v, z3.ExprRef)
 def is_symint(v): return isinstance(v, z3.ArithRef)
 def is_symbool(v): return isinstance(v, z3.BoolRef)
-def is_symbytes(v): return isinstance(v, z3.SeqRef)
+def is_symbytes(v): return isinstance(v, z3.SeqRef) and not v.is_string()
+def is_symstr(v): return isinstance(v, z3.SeqRef) and v.is_string()
 BYTES = z3.SeqSort(z3.IntSort())
 
 BLOB_MIN = 48
@@ -210,6 +233,9 @@ class Engine:
         self.inputs = {}
         self.keep_smt2 = False
         self.shift_src = {}
+        self.func_stack = []
+        self.branch_timeout_ms = 3000
+        self.unknown_branches = 0
         self.loop_specs = {}      # (qualname, ordinal) -> LoopSpec
         self.assumptions = set()  # abstractions actually used on some path
 
@@ -290,13 +316,44 @@ class Engine:
         return cls
 
     # ---------- solver
-    def check(self, extra):
-        s = z3.Solver(); s.set("timeout", self.timeout_ms)
+    def check(self, extra, timeout_ms=None):
+        s = z3.Solver(); s.set("timeout", timeout_ms or self.timeout_ms)
         for c in blob_facts(): s.add(c)
         for c in self.path.pc: s.add(c)
         for c in extra: s.add(c)
         t = time.time(); r = s.check(); self.solver_time += time.time() - t
         return r, s
+
+    def check_relevant(self, extra, depth=2):
+        """retry with only the hypotheses that share uninterpreted symbols with the goal (closure to `depth`); an unsat
+        answer from fewer hypotheses is still a proof"""
+        def syms(e, acc):
+            todo = [e]; seen = set()
+            while todo:
+                x = todo.pop()
+                if x.get_id() in seen: continue
+                seen.add(x.get_id())
+                if z3.is_quantifier(x): todo.append(x.body()); continue
+                if z3.is_app(x):
+                    if x.decl().kind() == z3.Z3_OP_UNINTERPRETED: acc.add(x.decl().name())
+                    todo.extend(x.children())
+            return acc
+        hyps = [(c, syms(c, set())) for c in self.path.pc if is_sym(c)]
+        goal = set()
+        for e in extra: syms(e, goal)
+        rel = set(goal); chosen = set()
+        for _ in range(depth):
+            for k, (c, sy) in enumerate(hyps):
+                if k not in chosen and sy & rel: chosen.add(k)
+            for k in chosen: rel |= hyps[k][1]
+        for d in range(depth, 0, -1):
+            pass
+        s = z3.Solver(); s.set("timeout", self.timeout_ms)
+        for c in blob_facts(): s.add(c)
+        for k in sorted(chosen): s.add(hyps[k][0])
+        for e in extra: s.add(e)
+        t = time.time(); r = s.check(); self.solver_time += time.time() - t
+        return r
 
     def branch(self, cond):
         """decide a symbolic condition on this path (forking)"""
@@ -308,8 +365,11 @@ class Engine:
         if p.pos < len(p.decisions):
             d = p.decisions[p.pos]
         else:
-            rt, _ = self.check([cond]); rf, _ = self.check([z3.Not(cond)])
-            if rt == z3.unknown or rf == z3.unknown: raise Unsupported("solver unknown at branch")
+            rt, _ = self.check([cond], timeout_ms=self.branch_timeout_ms); rf, _ = self.check([z3.Not(cond)], timeout_ms=self.branch_timeout_ms)
+            # feasibility undecided (typically: quantified invariants in the path condition): explore the side anyway.
+            # Sound: an infeasible path only yields vacuous obligations, and a *failed* obligation needs a model of the path.
+            if rt == z3.unknown: rt = z3.sat; self.unknown_branches += 1
+            if rf == z3.unknown: rf = z3.sat; self.unknown_branches += 1
             if rt == z3.sat and rf == z3.sat:
                 self.worklist.append(p.decisions[:p.pos] + [False]); d = True
             elif rt == z3.sat: d = True
@@ -365,6 +425,11 @@ class Engine:
         r, s = self.check(extra)
         rec["secs"] = time.time() - t
         if self.keep_smt2: rec["smt2"] = s.sexpr()
+        if r == z3.unknown:
+            r2 = self.check_relevant(extra)
+            if r2 == z3.unsat:
+                r = z3.unsat; rec["backend"] += " (hypotheses restricted to the goal's cone of influence)"
+                rec["secs"] = time.time() - t
         if r == z3.unsat:
             rec["status"] = "proved"
             if region is not None:
@@ -385,6 +450,8 @@ class Engine:
         if is_symbool(v): return self.branch(v)
         if is_symint(v): return self.branch(v != 0)
         if is_symbytes(v): return self.branch(slen(v) != 0) if is_sym(slen(v)) else slen(v) != 0
+        if is_symstr(v): return self.branch(z3.Length(v) != 0)
+        if isinstance(v, SymList): return self.branch(v.n != 0)
         if isinstance(v, (Obj, Func, Builtin, ClassV, Lazy, Bound)): return True
         if isinstance(v, Opaque): raise Unsupported(f"truth of opaque {v}")
         return bool(v)
@@ -420,14 +487,25 @@ class Engine:
                 d[self.eval(k, env, mod)] = self.eval(v, env, mod)
         return d
     def e_JoinedStr(self, n, env, mod):
-        # diagnostic text: value opaque, but embedded expressions run for their exceptions/effects
+        # value is kept when every part is a (possibly symbolic) string or a concrete int without format spec; otherwise it is
+        # diagnostic text: opaque, but embedded expressions still run for their exceptions/effects
+        parts = []; opaque = False
         for part in n.values:
             if isinstance(part, ast.FormattedValue):
                 try:
-                    self.eval(part.value, env, mod)
+                    v = self.eval(part.value, env, mod)
                 except Unsupported as u:
                     self.assumptions.add("f-string part not interpreted (assumed exception-free): %s:%s" % (mod["name"], part.value.lineno))
-        return Opaque("fstr")
+                    opaque = True; continue
+                if part.format_spec is None and part.conversion == -1 and (isinstance(v, str) or is_symstr(v) or (isinstance(v, int) and not isinstance(v, bool))):
+                    parts.append(v if not isinstance(v, int) else str(v))
+                else: opaque = True
+            else:
+                parts.append(part.value)
+        if opaque: return Opaque("fstr")
+        if all(isinstance(p, str) for p in parts): return "".join(parts)
+        zs = [z3.StringVal(p) if isinstance(p, str) else p for p in parts if not (isinstance(p, str) and p == "")]
+        return zs[0] if len(zs) == 1 else z3.Concat(*zs)
     def e_Lambda(self, n, env, mod): return Func(n, env, mod, "<lambda>")
     def e_IfExp(self, n, env, mod):
         return self.eval(n.body, env, mod) if self.truth(self.eval(n.test, env, mod)) else self.eval(n.orelse, env, mod)
@@ -491,6 +569,11 @@ class Engine:
                     self.assume(z3.ForAll([i], z3.Implies(z3.And(i >= 0, i < n_), r[i] == 0)))
                     return r
             raise Unsupported("bytes op")
+        if is_symstr(a) or is_symstr(b):
+            if isinstance(op, ast.Add) and (isinstance(a, str) or is_symstr(a)) and (isinstance(b, str) or is_symstr(b)):
+                return z3.Concat(zstr(a), zstr(b))
+            if isinstance(a, Opaque) or isinstance(b, Opaque): return Opaque("str")
+            raise Unsupported("operator on symbolic str")
         if isinstance(a, Opaque) or isinstance(b, Opaque):
             if isinstance(op, (ast.Add, ast.Mult, ast.Mod)): return Opaque("str")
             raise Unsupported("operator on opaque value")
@@ -579,6 +662,18 @@ class Engine:
             r = self.contains(b, a)
             if isinstance(op, ast.NotIn): r = z3.Not(r) if is_sym(r) else not r
             return r
+        if is_symstr(a) or is_symstr(b):
+            if not ((isinstance(a, str) or is_symstr(a)) and (isinstance(b, str) or is_symstr(b))):
+                if isinstance(op, ast.Eq): return False
+                if isinstance(op, ast.NotEq): return True
+                raise PyRaise(Exc("TypeError"))
+            za, zb = zstr(a), zstr(b)
+            if isinstance(op, ast.Eq): return za == zb
+            if isinstance(op, ast.NotEq): return za != zb
+            if isinstance(op, ast.LtE): return z3.Or(za == zb, za < zb)
+            if isinstance(op, ast.Lt): return za < zb
+            if isinstance(op, ast.GtE): return z3.Or(za == zb, zb < za)
+            if isinstance(op, ast.Gt): return zb < za
         if isinstance(a, (Lazy, Obj, Opaque)) or isinstance(b, (Lazy, Obj, Opaque)):
             if isinstance(op, ast.Eq): return a is b
             if isinstance(op, ast.NotEq): return a is not b
@@ -601,6 +696,12 @@ class Engine:
             if "__contains__" in container.attrs: return self.call(container.attrs["__contains__"], [item], {})
             if isinstance(container.cls, ClassV) and container.cls.lookup("__contains__") is not None:
                 return self.call(Bound(container, container.cls.lookup("__contains__")), [item], {})
+        if (is_symstr(container) or isinstance(container, str)) and (is_symstr(item) or isinstance(item, str)) and (is_sym(container) or is_sym(item)):
+            return z3.Contains(zstr(container), zstr(item))
+        if isinstance(container, (tuple, list, set)) and is_symstr(item):
+            return z3.Or([item == z3.StringVal(c) for c in container if isinstance(c, str)]) if container else False
+        if isinstance(container, dict) and is_symstr(item):
+            return z3.Or([item == z3.StringVal(c) for c in container if isinstance(c, str)]) if container else False
         if isinstance(container, (tuple, list, dict, str, set)) and not is_sym(item):
             return item in container
         if isinstance(container, (tuple, list)) and is_sym(item):
@@ -643,11 +744,25 @@ class Engine:
         if isinstance(v, Opaque): return Opaque(v.tag + "." + attr)
         if isinstance(v, dict) and attr in ("get", "items", "keys", "values"):
             return Builtin("dict." + attr, lambda eng, *a, _m=getattr(v, attr): _m(*a))
+        if is_symstr(v) or (isinstance(v, str) and attr in SYMSTR_METHODS):
+            zs = z3.StringVal(v) if isinstance(v, str) else v
+            conc = getattr(v, attr, None) if isinstance(v, str) else None
+            def strmeth(eng, *a, _s=zs, _attr=attr, _conc=conc):
+                if _conc is not None and not any(is_sym(x) for x in a): return _conc(*a)
+                return symstr_method(eng, _s, _attr, a)
+            return Builtin("str." + attr, strmeth)
         if isinstance(v, SymBits):
             if attr == "isdigit": return Builtin("isdigit", lambda eng: True)
         if isinstance(v, (str, bytes)) and attr == "join": return Builtin("join", b_join(v))
         if isinstance(v, str) or isinstance(v, (bytes, bytearray)):
             return Builtin("str." + attr, lambda eng, *a, _m=getattr(v, attr): _m(*a))
+        if isinstance(v, SymList):
+            if attr == "append":
+                def lapp(eng, x, _v=v):
+                    x = eng.undyn(x)
+                    _v.arr = z3.Store(_v.arr, _v.n, z3.IntVal(x) if isinstance(x, int) else x); _v.n = _v.n + 1
+                return Builtin("list.append", lapp)
+            raise Unsupported(f"symbolic list .{attr}")
         if isinstance(v, ByteBuf):
             if attr == "append":
                 def app(eng, x, _v=v):
@@ -666,6 +781,17 @@ class Engine:
 
     def e_Subscript(self, n, env, mod):
         v = self.eval(n.value, env, mod)
+        if isinstance(n.slice, ast.Slice) and (is_symstr(v) or isinstance(v, SymList) or is_symbytes(v)):
+            lo = self.eval(n.slice.lower, env, mod) if n.slice.lower else None
+            hi = self.eval(n.slice.upper, env, mod) if n.slice.upper else None
+            if n.slice.step is not None: raise Unsupported("slice step")
+            return self.sym_slice(v, lo, hi)
+        if is_symstr(v) or isinstance(v, SymList):
+            idx = self.undyn(self.eval(n.slice, env, mod))
+            ln = z3.Length(v) if is_symstr(v) else v.n
+            if self.branch(z3.Or(idx >= ln, idx < -ln)): raise PyRaise(Exc("IndexError"))
+            pos = idx if (isinstance(idx, int) and idx >= 0) else (ln + idx if isinstance(idx, int) else z3.If(idx >= 0, idx, ln + idx))
+            return z3.SubString(v, pos, 1) if is_symstr(v) else z3.Select(v.arr, pos)
         if isinstance(n.slice, ast.Slice):
             lo = self.eval(n.slice.lower, env, mod) if n.slice.lower else None
             hi = self.eval(n.slice.upper, env, mod) if n.slice.upper else None
@@ -702,6 +828,22 @@ class Engine:
             if idx in d: return d[idx]
             child = Obj("opaque", name=f"{v.name}[{idx!r}]"); d[idx] = child; return child
         raise Unsupported(f"subscript {v!r}")
+
+    def sym_slice(self, v, lo, hi):
+        """python slicing of a symbolic sequence with clamping; supports non-negative bounds and negative concrete bounds"""
+        seq = v.arr if isinstance(v, SymList) else v
+        ln = v.n if isinstance(v, SymList) else (z3.Length(seq) if not is_symbytes(seq) else slen(seq))
+        def norm(b, default):
+            if b is None: return default
+            if isinstance(b, int): b = z3.IntVal(b)
+            # common case: the bound is provably inside 0..len - keep the term as it is (no clamping noise for the solver)
+            r, _ = self.check([z3.Not(z3.And(b >= 0, b <= ln))], timeout_ms=self.branch_timeout_ms)
+            if r == z3.unsat: return b
+            b = z3.If(b < 0, ln + b, b)
+            return z3.If(b < 0, 0, z3.If(b > ln, ln, b))
+        a = norm(lo, z3.IntVal(0)); b = norm(hi, ln)
+        if isinstance(v, SymList): return SymSlice(seq, a, b)
+        return z3.SubString(seq, a, z3.If(b > a, b - a, 0)) if is_symstr(seq) else z3.Extract(seq, a, z3.If(b > a, b - a, 0))
 
     def e_GeneratorExp(self, n, env, mod): return self.comprehension(n, env, mod)
     def e_ListComp(self, n, env, mod): return self.comprehension(n, env, mod)
@@ -778,10 +920,13 @@ class Engine:
             if k.arg in kwargs: env.vars[k.arg] = kwargs.pop(k.arg)
         if kwargs and not a.kwarg: raise PyRaise(Exc("TypeError"))
         if isinstance(node, ast.Lambda): return self.eval(node.body, env, f.module)
+        self.func_stack.append(f)
         try:
             self.exec_block(node.body, env, f.module)
         except ReturnSig as r:
             return r.v
+        finally:
+            self.func_stack.pop()
         return None
 
     # Deferred[T](fn) / SizedDeferred[T](size, fn): contract of BaseDeferred.construct --
@@ -831,6 +976,16 @@ class Engine:
         self.assign_target(st.target, v, env, mod)
     def assign_target(self, t, v, env, mod):
         if isinstance(t, ast.Name): env.assign(t.id, v)
+        elif isinstance(t, (ast.Tuple, ast.List)) and is_symstr(v):
+            k = len(t.elts)
+            kl = known_len(v)
+            if (kl != k) if kl is not None else self.branch(z3.Length(v) != k): raise PyRaise(Exc("ValueError"))
+            for j, tt in enumerate(t.elts): self.assign_target(tt, substr1(v, j), env, mod)
+        elif isinstance(t, (ast.Tuple, ast.List)) and isinstance(v, SymSlice):
+            k = len(t.elts)
+            n_ = z3.simplify(z3.If(v.stop > v.start, v.stop - v.start, 0))
+            if self.branch(n_ != k): raise PyRaise(Exc("ValueError"))
+            for j, tt in enumerate(t.elts): self.assign_target(tt, z3.Select(v.arr, v.start + j), env, mod)
         elif isinstance(t, (ast.Tuple, ast.List)):
             vs = list(self.iterate(v))
             if len(vs) != len(t.elts): raise PyRaise(Exc("ValueError"))
@@ -864,6 +1019,10 @@ class Engine:
         raise PyRaise(e)
     def s_For(self, st, env, mod):
         it = self.eval(st.iter, env, mod)
+        if isinstance(it, (SymList, SymRange)) or is_symstr(it) or is_symbytes(it):
+            spec = self.loop_spec_for(st)
+            if spec is None: raise Unsupported("for loop over a symbolic-length iterable without a loop contract: %s:%d" % (mod["name"], st.lineno))
+            return self.cut_loop(spec, st, env, mod, it)
         for item in self.iterate(it):
             self.assign_target(st.target, item, env, mod)
             try: self.exec_block(st.body, env, mod)
@@ -875,10 +1034,9 @@ class Engine:
         fuel = 4096
         while True:
             c = self.eval(st.test, env, mod)
-            if is_sym(c) and not isinstance(c, bool):
-                spec = self.loop_spec_for(st, env, mod)
-                if spec is not None:
-                    return self.cut_loop(spec, st, env, mod)
+            spec = self.loop_spec_for(st)
+            if spec is not None:
+                return self.cut_loop(spec, st, env, mod)
             if not self.truth(c): break
             fuel -= 1
             if fuel <= 0: raise Unsupported("while loop without invariant exceeded fuel")
@@ -886,7 +1044,78 @@ class Engine:
             except BreakSig: return
             except ContinueSig: continue
         self.exec_block(st.orelse, env, mod)
-    def loop_spec_for(self, st, env, mod): return None
+    def loop_key(self, st):
+        f = self.func_stack[-1] if self.func_stack else None
+        if f is None: return None
+        cache = getattr(f, "_loops", None)
+        if cache is None:
+            cache = []
+            def walk(n):
+                for c in ast.iter_child_nodes(n):
+                    if isinstance(c, (ast.FunctionDef, ast.Lambda, ast.ClassDef)): continue
+                    if isinstance(c, (ast.For, ast.While)): cache.append(c)
+                    walk(c)
+            walk(f.node)
+            f._loops = cache
+        for i, n in enumerate(cache):
+            if n is st: return (f.qualname, i)
+        return None
+    def loop_spec_for(self, st):
+        k = self.loop_key(st)
+        return self.loop_specs.get(k) if k else None
+
+    def iter_len(self, it):
+        if isinstance(it, SymList): return it.n
+        if isinstance(it, SymRange):
+            span = it.stop - it.start
+            if not (isinstance(it.step, int) and it.step > 0): raise Unsupported("symbolic range step")
+            return z3.If(span <= 0, 0, (span + it.step - 1) / it.step)
+        if is_symstr(it): return z3.Length(it)
+        return slen(it)
+    def iter_item(self, it, i):
+        if isinstance(it, SymList): return z3.Select(it.arr, i)
+        if isinstance(it, SymRange): return it.start + it.step * i
+        if is_symstr(it): return z3.SubString(it, i, 1)
+        return it[i]
+
+    def cut_loop(self, spec, st, env, mod, it=None):
+        """cut-point rule: invariant on entry; havoc; assume invariant; one arbitrary iteration re-establishes it
+        (and decreases the variant); continue after the loop from invariant and not guard"""
+        qual, ordn = self.loop_key(st)
+        label = "%s#loop%d" % (qual, ordn)
+        idx = "__i%d" % ordn
+        self.loops_cut = getattr(self, "loops_cut", set()) | {label}
+        if it is not None: env.vars[idx] = 0
+        env.vars["__ghost%d" % ordn] = None      # ghost state of this loop instance (set by spec.havoc, read by spec.inv)
+        for lab, c in spec.inv(self, env): self.prove("%s:invariant-holds-on-entry:%s" % (label, lab), c)
+        spec.havoc(self, env)
+        i = None
+        if it is not None:
+            i = self.fresh_int("i"); env.vars[idx] = i
+            n = self.iter_len(it)
+            self.assume(i >= 0); self.assume(i <= n)
+        for lab, c in spec.inv(self, env): self.assume(c)
+        if self.branch(self.fresh_bool("loop_continues")):
+            if it is None:
+                if not self.truth(self.eval(st.test, env, mod)): raise PathEnd()
+            else:
+                self.assume(i < n)
+                self.assign_target(st.target, self.iter_item(it, i), env, mod)
+            v0 = spec.variant(self, env) if spec.variant else None
+            try: self.exec_block(st.body, env, mod)
+            except ContinueSig: pass
+            except BreakSig: return
+            if it is not None: env.vars[idx] = i + 1
+            for lab, c in spec.inv(self, env): self.prove("%s:invariant-preserved:%s" % (label, lab), c)
+            if v0 is not None:
+                v1 = spec.variant(self, env)
+                self.prove("%s:variant-decreases-and-is-bounded-below" % label, z3.And(v1 < v0, v0 >= 0))
+            raise PathEnd()
+        if it is None:
+            if self.truth(self.eval(st.test, env, mod)): raise PathEnd()
+        else:
+            self.assume(i == n)
+        self.exec_block(st.orelse, env, mod)
     def s_With(self, st, env, mod):
         if len(st.items) != 1: raise Unsupported("multi-item with")
         item = st.items[0]
@@ -954,7 +1183,7 @@ def b_isinstance(eng, v, cls):
             if isinstance(v, Dyn): return v.is_int
             continue
         if c is str:
-            if isinstance(v, str): return True
+            if isinstance(v, str) or is_symstr(v): return True
             if isinstance(v, Obj) and v.cls == "SymStr": return True
             if isinstance(v, Dyn): return z3.Not(v.is_int)
             continue
@@ -979,6 +1208,8 @@ def announced_len(v):
 
 def b_len(eng, v):
     if is_symbytes(v): return slen(v)
+    if is_symstr(v): return known_len(v) if known_len(v) is not None else z3.Length(v)
+    if isinstance(v, SymList): return v.n
     if isinstance(v, ByteBuf): return b_len(eng, v.v)
     if isinstance(v, Lazy):
         if v.size is not None: return v.size       # SizedDeferred.__len__
@@ -1097,7 +1328,7 @@ BUILTINS = {
     "struct.pack": Builtin("struct.pack", b_struct_pack),
     "int": TypeV("int", b_int, int), "str": TypeV("str", b_str, str), "bytes": TypeV("bytes", lambda eng, v=b"": b_bytes(eng, v), bytes),
     "list": Builtin("list", lambda eng, v=(): list(eng.iterate(v))),
-    "range": Builtin("range", lambda eng, *a: range(*a)),
+    "range": Builtin("range", lambda eng, *a: b_range(eng, *a)),
     "zip": Builtin("zip", lambda eng, *a: list(zip(*[eng.iterate(x) for x in a]))),
     "enumerate": Builtin("enumerate", lambda eng, a: list(enumerate(eng.iterate(a)))),
     "type": Builtin("type", lambda eng, v: v.cls if isinstance(v, Obj) and isinstance(v.cls, ClassV) else Opaque("type")),
@@ -1134,6 +1365,113 @@ BUILTINS["None"] = None
 class ByteBuf:
     """bytearray whose content may be symbolic: value is bytes or a z3 Seq(Int)"""
     def __init__(self, v=b""): self.v = bytes(v) if isinstance(v, (bytes, bytearray)) else v
+
+
+strupper = z3.Function("strupper", z3.StringSort(), z3.StringSort())
+strlower = z3.Function("strlower", z3.StringSort(), z3.StringSort())
+SYMSTR_METHODS = {"upper", "lower", "index", "find", "endswith", "startswith", "encode", "ljust"}
+ENCODERS = {}
+
+def zstr(v): return z3.StringVal(v) if isinstance(v, str) else v
+
+KNOWN_STRLEN = {}   # name of a String constant -> its (assumed) concrete length
+
+def known_len(s):
+    """concrete length of a string term when it is determined structurally, else None"""
+    if isinstance(s, str): return len(s)
+    if z3.is_string_value(s): return len(s.as_string()) if s.as_string().isascii() else None
+    if z3.is_app(s):
+        k = s.decl().kind()
+        if k == z3.Z3_OP_SEQ_CONCAT:
+            ls = [known_len(c) for c in s.children()]
+            return None if any(l is None for l in ls) else sum(ls)
+        if k == z3.Z3_OP_UNINTERPRETED and s.num_args() == 0: return KNOWN_STRLEN.get(s.decl().name())
+    return None
+
+def str_parts(s):
+    if z3.is_app(s) and s.decl().kind() == z3.Z3_OP_SEQ_CONCAT:
+        out = []
+        for c in s.children(): out += str_parts(c)
+        return out
+    return [s]
+
+def substr1(s, j):
+    """s[j] (a one-character string) for concrete j, picked structurally when the parts have known lengths"""
+    if isinstance(j, int):
+        pos = 0
+        for p in str_parts(s):
+            l = known_len(p)
+            if l is None: break
+            if pos <= j < pos + l:
+                if l == 1: return p
+                if z3.is_string_value(p): return z3.StringVal(p.as_string()[j - pos])
+                break
+            pos += l
+    return z3.SubString(s, j, 1)
+
+FINDFN = {}
+
+def str_find(eng, s, x):
+    """str.find(s, x).  For a concrete haystack and a symbolic needle the result is an uninterpreted function of the
+    needle, find_<haystack>(x), constrained by the range facts of str.find: the sequence solver is kept out of the
+    arithmetic (sound over-approximation; concrete needles are evaluated)."""
+    if z3.is_string_value(s) and z3.is_string_value(x): return s.as_string().find(x.as_string())
+    if z3.is_string_value(s):
+        hay = s.as_string()
+        if hay not in FINDFN: FINDFN[hay] = z3.Function("find_%d" % len(FINDFN), z3.StringSort(), z3.IntSort())
+        r = FINDFN[hay](x)
+        lx = known_len(x) if known_len(x) is not None else z3.Length(x)
+        if eng is not None:
+            eng.assume(z3.Or(r == -1, z3.And(r >= 0, r + lx <= len(hay))))
+            eng.assume(z3.Implies(lx == 0, r == 0))
+            eng.assumptions.add("str.find/index on a constant haystack is an uninterpreted function of the needle with the range facts of str.find")
+        return r
+    r = z3.IndexOf(s, x, 0)
+    return r
+
+
+def symstr_method(eng, s, attr, a):
+    if attr in ("upper", "lower"):
+        r = (strupper if attr == "upper" else strlower)(s)
+        # case mapping never yields an empty string from a non-empty one (it may yield several characters)
+        eng.assume(z3.Implies(z3.Length(s) >= 1, z3.Length(r) >= 1))
+        return r
+    if attr in ("index", "find"):
+        if len(a) != 1: raise Unsupported("str.%s with start/end" % attr)
+        r = str_find(eng, s, zstr(a[0]))
+        if attr == "index" and eng.branch(r < 0): raise PyRaise(Exc("ValueError"))
+        return r
+    if attr == "endswith": return z3.SuffixOf(zstr(a[0]), s)
+    if attr == "startswith": return z3.PrefixOf(zstr(a[0]), s)
+    if attr == "ljust":
+        n, fill = a[0], (a[1] if len(a) > 1 else " ")
+        if not isinstance(n, int) or n > 32 or not isinstance(fill, str): raise Unsupported("ljust with symbolic width")
+        kl = known_len(s)
+        if kl is not None:
+            if kl >= n: return s
+            return z3.Concat(s, z3.StringVal(fill * (n - kl))) if kl else z3.StringVal(fill * n)
+        L = z3.Length(s); r = s
+        for k in range(n - 1, -1, -1):
+            r = z3.If(L == k, z3.Concat(s, z3.StringVal(fill * (n - k))) if k else z3.StringVal(fill * n), r)
+        return r
+    if attr == "encode":
+        cs = a[0] if a else "utf-8"
+        if not isinstance(cs, str): raise Unsupported("encode with non-constant charset")
+        if cs not in ENCODERS:
+            ENCODERS[cs] = (z3.Function("encode_" + cs.replace("-", "_"), z3.StringSort(), BYTES), z3.Function("unencodable_" + cs.replace("-", "_"), z3.StringSort(), z3.BoolSort()))
+        enc, bad = ENCODERS[cs]
+        eng.assumptions.add("str.encode(%r) is external: an uninterpreted function that may raise UnicodeEncodeError" % cs)
+        if eng.branch(bad(s)): raise PyRaise(Exc("UnicodeEncodeError"))
+        return enc(s)
+    raise Unsupported("str." + attr)
+
+
+def b_range(eng, *a):
+    a = [eng.undyn(x) for x in a]
+    if not any(is_sym(x) for x in a): return range(*a)
+    if len(a) == 1: return SymRange(0, a[0], 1)
+    if len(a) == 2: return SymRange(a[0], a[1], 1)
+    return SymRange(a[0], a[1], a[2])
 
 
 def b_bytes(eng, v=b""):
